@@ -45,7 +45,9 @@ def tlc(name, cfg, module, cwd, workers=6, timeout=900, extra=None, env=None, ja
     meta = os.path.join(WORK, "tlc", name)
     shutil.rmtree(meta, ignore_errors=True)
     os.makedirs(meta, exist_ok=True)
-    cmd = ["java", "-XX:+UseParallelGC"] + java_opts.split() + ["-DTLA-Library=" + LIBPATH, "-cp", JAR, "tlc2.TLC",
+    jtmp = os.path.join(meta, "jtmp")          # TLC leaves an empty tlc-<n> directory per run in java.io.tmpdir
+    os.makedirs(jtmp, exist_ok=True)
+    cmd = ["java", "-XX:+UseParallelGC", "-Djava.io.tmpdir=" + jtmp] + java_opts.split() + ["-DTLA-Library=" + LIBPATH, "-cp", JAR, "tlc2.TLC",
            "-workers", str(workers), "-metadir", meta, "-cleanup", "-noGenerateSpecTE", "-config", cfg] + (extra or []) + [module]
     t0 = time.time()
     try:
